@@ -102,6 +102,12 @@ func (r *Rng) mutateBytes(b []byte, free bool) ([]byte, string) {
 		if len(b) >= 5 {
 			types := []uint32{1, 2, 3, 4, 5, 6, 7, 15, 17, 1001, 2004, 3007, 4001, 0x80000001, 0x20000004, 0xE0000007, 0x60000002}
 			v := types[r.Intn(len(types))]
+			if r.chance(1, 2) {
+				// any of the seven types, in the ISO numbering of any dimensionality, under any of the
+				// EWKB flag combinations (a type word no encoder writes when both are present)
+				v = []uint32{0, 0x80000000, 0x40000000, 0xC0000000, 0x20000000, 0xA0000000, 0x60000000, 0xE0000000}[r.Intn(8)] |
+					(uint32(1+r.Intn(7)) + []uint32{0, 1000, 2000, 3000}[r.Intn(4)])
+			}
 			if b[0] == 1 {
 				binary.LittleEndian.PutUint32(b[1:], v)
 			} else {
